@@ -198,6 +198,43 @@ def run(ctx):
     bv = [v for v in fv if len(v["history"]) >= 2][: (3000 if tier == "quick" else 30000)]
     run_vectors(ctx, bv, "bundled", "replay-bundled")
     ctx.stage("replay", vectors=len(vecs), registered=len(reg), files=len(fv), bundled_files=len(bv), exhaustive=True)
+    # ---- one declaration naming two libraries, in both orders: what the declaration leaves behind (which of the two
+    # libraries' names are bound afterwards) depends on the library graph, not on the order in which the sets are written
+    graphs = {}
+    for v in reg:
+        graphs.setdefault(canon([v["imports"], v["kind"]]), v)
+    decl_jobs, decl_meta = [], []
+    for key in sorted(graphs)[: (400 if tier == "quick" else 5000)]:
+        v = graphs[key]
+        n = len(v["kind"])
+        for a in range(1, n + 1):
+            for b in range(a + 1, n + 1):
+                for order in ((a, b), (b, a)):
+                    j, first = session(len(decl_jobs), v["imports"], v["kind"], [], "registered")
+                    j["steps"].append({"op": "eval", "i": 0, "text": "(import (l%d) (l%d))" % order})
+                    j["steps"] += [{"op": "eval", "i": 0, "text": "v%d" % a}, {"op": "eval", "i": 0, "text": "v%d" % b}]
+                    decl_jobs.append(j); decl_meta.append((key, a, b, order, first))
+    dres = run_jobs(decl_jobs, ctx.dir, tag="declaration-order", timeout=2400)
+    seen_decl = {}
+    for (key, a, b, order, first), res in zip(decl_meta, dres):
+        if res.get("skipped") or res.get("crashed"):
+            continue
+        rs = res["results"][first:]
+        if len(rs) < 3:
+            continue
+        bound = tuple(o.get("k") == "value" for o in rs[1:3])
+        outcome = observed_out(rs[0])
+        ctx.count(evaluations=1, validated=1)
+        k2 = (key, a, b)
+        if k2 in seen_decl and seen_decl[k2][1] != bound:
+            v = graphs[key]
+            other = seen_decl[k2]
+            ctx.violation([{"kind": "vector", "value": "declaration | %s | (l%d) (l%d)" % (describe(v["imports"], v["kind"]), a, b)}],
+                          "libraries {%s}: (import (l%d) (l%d)) ended with %s and left v%d/v%d bound = %s; the same two sets written in the other order ended with %s and left %s"
+                          % (describe(v["imports"], v["kind"]), order[0], order[1], outcome, a, b, list(bound), other[0], list(other[1])),
+                          {"stage": "declaration-order", "imports": v["imports"], "kind": v["kind"], "pair": [a, b]})
+        seen_decl.setdefault(k2, (outcome, bound))
+    ctx.stage("declaration-order", declarations=len(decl_jobs))
     for v in vecs[:: max(1, len(vecs) // 3)][:3]:
         ctx.sample({"libraries": describe(v["imports"], v["kind"]), "history": v["history"], "allowed": v["cands"]})
     # ---- simulation walks over larger worlds (4 libraries) in thorough
